@@ -150,7 +150,8 @@ def canon(evs):
 
 def pkt_line(p):
     return 'pkt %s %s %d %d %d %d %d %s %d' % (hexs(p['src']), hexs(p['dst']), p['sport'], p['dport'], p['flags'], p['seq'] % M32,
-                                                 p['ack'] % M32, hexs(p['data']) if p['data'] is not None else '-1', p['ts'])
+                                                 p['ack'] % M32, hexs(p['data']) if p['data'] is not None else '-1', p['ts']) + \
+        ((' [ ' + ' '.join(str(x % M32) for x in p['sack']) + ' ]') if p.get('sack') else '')
 
 
 def endpoints_pool(rng):
@@ -280,7 +281,19 @@ def gen_case(rng, sid, quick):
         r = rng.random()
         ts += rng.choice([0, 1, 10, 100]) if r < 0.8 else (keep + rng.choice([-1, 0, 1]) if r < 0.9 else rng.choice([keep // 2, keep * 2]))
         p['ts'] = ts
-    lines = ['cfg %d %d %d %d' % (attach, keep, max_chunks, max_bytes)] + [pkt_line(p) for p in merged] + ['live']
+    # ACK tracking switched on for every stream, acknowledgements carrying SACK blocks (few intervals, many bytes): the only
+    # observable effect it may have is the SACKED_SEGMENTS termination, which needs more than 1024 intervals and never happens here
+    acktrack = rng.random() < 0.3
+    if acktrack:
+        for p in merged:
+            if p['flags'] & ACK and not p['flags'] & SYN and rng.random() < 0.4:
+                edges, at = [], p['ack'] + rng.choice([1, 100, 1460])
+                for _ in range(rng.randrange(1, 4)):
+                    ln = rng.choice([10, 1460, 3000, 70000])
+                    edges += [at, at + ln]
+                    at += ln + rng.choice([1, 1460])
+                p['sack'] = edges
+    lines = ['cfg %d %d %d %d' % (attach, keep, max_chunks, max_bytes) + (' 1' if acktrack else '')] + [pkt_line(p) for p in merged] + ['live']
     return (sid, lines), {'cfg': (attach, keep, max_chunks, max_bytes), 'pkts': merged, 'nconn': len(conns)}
 
 
